@@ -1389,6 +1389,31 @@ def _check_consumers(ctx: Ctx, mbase: pf.Module, ic_classes: List[Tuple[pf.Modul
                         'Later quantifications with the same arguments see the changed list / dict: identical requests are billed differently, the whole-worker bill and the bill of a job '
                         'filling the worker diverge, and a reloaded config (nothing cached) bills differently from the warm original', m.path, node.lineno)
     ctx.need(n_consumers >= 1, f'{F_IC}: no consumer of quantified_resources found (anchor changed)')
+    # consumers elsewhere in the batch service (driver, worker): scanned when results are retained (then an update anywhere matters) and in the thorough tier
+    if shared_list_why is not None or shared_elem_why is not None or ctx.tier == 'thorough':
+        analysed = {F_IC} | {m.rel for m, _ in ic_classes}
+        n_ext = 0
+        for rel in pf.walk_py(['batch/batch']):
+            if rel in analysed:
+                continue
+            try:
+                mx = pf.load(rel)
+            except AnalysisError:
+                continue
+            for qual, fn in mx.functions():
+                if not any(isinstance(x.func, ast.Attribute) and x.func.attr == 'quantified_resources' for x in pf.calls_in(fn)):
+                    continue
+                n_ext += 1
+                lm, em = _result_mutations({}, fn, set(), depth=0)
+                for node, why in [(x, shared_list_why) for x in lm] + [(x, shared_list_why or shared_elem_why) for x in em]:
+                    if why is None:
+                        continue
+                    bad += 1
+                    stmt = short(pf.nsrc(node), 80)
+                    ctx.bad('R4', f'{rel}::{qual}::{stmt}', f'`{stmt}` changes in place a result of quantified_resources that is not private to the caller: {why}. Later quantifications '
+                            'with the same arguments see the changed list / dict: identical requests are billed differently and a reloaded config bills differently from the warm original',
+                            mx.path, node.lineno)
+        ctx.unit('external_consumers', n_ext)
     if bad == 0:
         ctx.ok('R4', f'{F_IC}::InstanceConfig::consumers of quantified_resources do not update retained results', {'consumers': n_consumers, 'list_memoised': kind == 'memo',
                                                                                                                       'dicts_retained_by_resources': shared_elem_why is not None})
